@@ -48,6 +48,7 @@ struct Layout {
 	std::vector<Region> r; size_t total = 0; bool ok = true;
 	void add(size_t off, size_t len, const std::string &n) { if (len) r.push_back({off, len, n}); }
 	const std::string &at(size_t pos) const { static const std::string none = "none"; for (auto &x : r) if (pos >= x.off && pos < x.off + x.len) return x.name; return none; }
+	const Region *region_at(size_t pos) const { for (auto &x : r) if (pos >= x.off && pos < x.off + x.len) return &x; return nullptr; }
 	const Region *find(const std::string &n, size_t nth = 0) const { for (auto &x : r) if (x.name == n) { if (!nth) return &x; nth--; } return nullptr; }
 	void shift_append(const Layout &o, size_t by) { for (auto &x : o.r) r.push_back({x.off + by, x.len, x.name}); total = by + o.total; ok = ok && o.ok; }
 };
